@@ -213,6 +213,14 @@ def run_property(prop, build_tasks, level="proof", tier="quick", seed=0, assumpt
                        list(assumptions), time.time() - t0, 1)
         return 1
     tasks = build_tasks(ctx)
+    # inductive-invariant closure (engine/closure.py): the property names the components whose invariants its lemmas assume
+    inv_pkgs = getattr(build_tasks, "invariant_packages", ())
+    inv_added = []
+    if inv_pkgs and not os.environ.get("VERIF_ONLY") and not os.environ.get("VERIF_NO_CLOSURE"):
+        from . import closure as closuremod
+        extra_inv = closuremod.invariant_tasks(ctx, tasks, set(inv_pkgs), ())
+        inv_added = [t.name for t in extra_inv]
+        tasks = list(tasks) + extra_inv
     _CTX, _TASKS, _PROP = ctx, tasks, prop
     nproc = int(os.environ.get("VERIF_PROCS", "0")) or min(16, max(1, len(tasks)))
     if nproc > 1 and len(tasks) > 1:
@@ -245,6 +253,8 @@ def run_property(prop, build_tasks, level="proof", tier="quick", seed=0, assumpt
         _TASKS = tasks
         closure_note = "closure: %d callee-contract tasks added (%s)%s" % (len(added), ", ".join(added[:60]),
                        ("; used callee contracts with no function task in any property: %s" % sorted(set(unknown_all))) if unknown_all else "")
+        if inv_added:
+            closure_note += "; invariant-preservation tasks added for packages %s: %d" % (sorted(inv_pkgs), len(inv_added))
         if outs:
             outs[0].setdefault("notes", []).append(closure_note)
     extra2 = extra_cov
